@@ -9,7 +9,7 @@ import warnings
 import numpy as np
 from hypothesis import strategies as st
 
-from .. import common, gen as G, graphs as GR
+from .. import common, gen as G, graphs as GR, loopvmap as LV
 from ..common import Violation
 from . import c01
 from ._base import standard_run, standard_worker
@@ -35,6 +35,8 @@ ASSUMPTIONS = [
     "in-place nodes are only generated on values whose other readers are ordered by data dependence",
 ]
 
+
+C04_BACKENDS = [None, "numpy", "numpy.numpylike", "numpy.einsum", LV.NAME, LV.NAME]
 
 # ------------------------------------------------------------------ helpers
 
@@ -149,8 +151,18 @@ def evaluate_captured(case, stats):
 
     arrays = G.build_arrays(case)
     adapter = case.get("adapter")
-    if adapter:
+    if case.get("backend") == LV.NAME:
+        LV.backend()
+    if adapter == "vmap":
+        import einxverif.expr as X
+
+        class _R:
+            calls = []
+
+        fn = LV.adapt_with_vmap(LV.make_elementary("vm", _R(), [tuple(X.br_shape(o, case["env"])) for o in case["outs"]]))
+    elif adapter:
         fn = adapters()[adapter]
+    if adapter:
 
         def call(graph=False):
             kw = dict(case["sizes"])
@@ -182,6 +194,7 @@ def evaluate_captured(case, stats):
         stats.count("captured:no_compile")
         return []
     stats.count("captured")
+    stats.count("captured:" + (f"adapter_{adapter}" if adapter else f"backend_{case.get('backend')}"))
     cc = rec.compile_calls[0]
     where = f"{case.get('adapter') or case['op']}({case['desc']!r}, shapes={[a.shape for a in arrays]}, backend={case.get('backend')})"
     fam = G.family_of(case["op"]) if not adapter else "adapter"
@@ -604,10 +617,15 @@ def evaluate_synth(case, stats):
 
 
 @st.composite
-def c04_case(draw, tier="quick"):
+def c04_case(draw, tier="quick", k=0):
     r = draw(st.integers(0, 9))
     if r <= 3:
         return draw(synth_case())
+    if r == 4 and draw(st.booleans()):
+        c = draw(G.call_case(ops=["vmapop"], quick=True, backends=[None]))
+        c["adapter"] = "vmap"
+        c["adapter_kwargs"] = draw(st.sampled_from([{}, {"scale": 2.5}, {"scale": 2, "tag": "x"}]))
+        return {"kind": "captured", "call": c}
     if r == 4:
         ad = draw(st.sampled_from(["reduce", "elementwise"]))
         c = draw(G.call_case(ops=["sum"] if ad == "reduce" else ["add"], quick=True, backends=[None], min_inputs=2))
@@ -617,7 +635,7 @@ def c04_case(draw, tier="quick"):
         c["adapter"] = ad
         c["adapter_kwargs"] = draw(st.sampled_from([{}, {"scale": 2.5}])) if ad == "reduce" else draw(st.sampled_from([{}, {"bias": 1.5}]))
         return {"kind": "captured", "call": c}
-    c = draw(G.call_case(quick=(tier == "quick"), backends=[None, "numpy", "numpy.numpylike", "numpy.einsum"]))
+    c = draw(G.stratified_case(k, quick=(tier == "quick"), backends=C04_BACKENDS))
     return {"kind": "captured", "call": c}
 
 
@@ -632,7 +650,7 @@ def replay_case(case):
 
 
 def make_strategy(tier, k):
-    return c04_case(tier)
+    return c04_case(tier, k)
 
 
 def worker(k, n, tier, seed, known_buckets, extra):
